@@ -34,8 +34,8 @@ def check_c15(opts):
     tier = opts.get('tier', 'quick')
     fails = []; evals = 0
     # ---- line framing
-    alpha = ['a', '', 'b c', '\x00\x01', 'xy']
-    lists = [list(p) for n in range(0, 4) for p in itertools.product(alpha[:4] if tier == 'quick' else alpha, repeat=n)]
+    alpha = ['a', '', 'b\rc', '\x0c\x00', '\u2028x\x85', 'xy']       # items may contain every character but the newline itself
+    lists = [list(p) for n in range(0, 4) for p in itertools.product(alpha[:5] if tier == 'quick' else alpha, repeat=n)]
     for items in lists:
         framed = run_plain(items, line.frame())
         stream = ''.join(framed)
